@@ -1,9 +1,9 @@
 #!/bin/sh
 # tools/all_variants.sh [kinds...]: every behaviour-preserving variant kind against every check (parallel); prints whatever is not silent
-cd /verif
+cd "$(dirname "$0")/.."
 kinds="$@"
-[ -z "$kinds" ] && kinds="rename format numpy logging cmpflip ifswap elsedrop stmtswap inline extract alias augassign ternary retvar guardnest guardmerge earlyreturn whiletrue noise tupleassign annotate isnot"
-mkdir -p /tmp/var
-for k in $kinds; do /venv/bin/python tools/refactor_variants.py $k > /tmp/var/$k.log 2>&1 & done
+[ -z "$kinds" ] && kinds="rename format numpy logging cmpflip ifswap elsedrop stmtswap inline extract alias augassign ternary retvar guardnest guardmerge earlyreturn whiletrue noise tupleassign annotate isnot extractmethod"
+mkdir -p ${TMPDIR:-/tmp}/var
+for k in $kinds; do /venv/bin/python tools/refactor_variants.py $k > ${TMPDIR:-/tmp}/var/$k.log 2>&1 & done
 wait
-for k in $kinds; do n=$(grep -c silent /tmp/var/$k.log); echo "== $k: $n silent"; grep -v silent /tmp/var/$k.log; done
+for k in $kinds; do n=$(grep -c silent ${TMPDIR:-/tmp}/var/$k.log); echo "== $k: $n silent"; grep -v silent ${TMPDIR:-/tmp}/var/$k.log; done
